@@ -30,7 +30,7 @@ TIMEOUT = {"quick": 900, "thorough": 3400}
 
 
 def gen_cases(tier: str, seed: int) -> list[dict[str, Any]]:
-    n = 48 if tier == "quick" else 1000
+    n = 48 if tier == "quick" else 2500
     return [dict(seed=seed, idx=i, nvar=4 if tier == "quick" else 6) for i in range(n)]
 
 
